@@ -587,6 +587,40 @@ def check_rebinding_composes(rep, repo, route, bi):
         rep.ok('R11.e', key, 'self.%s is built on %s.%s, the value of the route being re-bound' % (attr, rp, attr), route, from_route[0][1])
 
 
+def check_rebinding_sites(rep, repo, app, route):
+    """R11.e at the two places that start a re-binding: BoundRoute.bind hands the bound route itself to the constructor, and
+    SubApplication.bind_all calls ``bind`` on the embedded application's bound routes -- neither goes back to the unbound
+    route (which would restart from the flat declaration and drop every inner embedding)."""
+    bb = route.func('BoundRoute.bind')
+    fl = Flow(bb)
+    made = [c for c in walk_body(bb.node) if isinstance(c, ast.Call) and
+            (call_name(c) == 'BoundRoute' or norm(c.func) in ('self.__class__', 'type(self)'))]
+    if not made:
+        raise AnalysisError('BoundRoute.bind: no construction of a BoundRoute found')
+    for c in made:
+        first = c.args[0] if c.args and not isinstance(c.args[0], ast.Starred) else next((k.value for k in c.keywords if k.arg == 'route'), None)
+        if first is None:
+            raise AnalysisError('BoundRoute.bind: the route handed to the constructor could not be identified (%s)' % short(c, 50))
+        txt = fl.text(first, stmt_of(route, c))
+        ok = txt == 'self'
+        if not ok and 'unbound_route' not in txt:
+            raise AnalysisError('BoundRoute.bind: the route handed to the constructor (%s) is not understood' % txt)
+        rep.check('R11.e', fkey(bb, 're-binds itself'), ok, 'a bound route is re-bound from itself (prefix, resources, middlewares so far are kept)' if ok else
+                  'BoundRoute.bind re-binds %s instead of the bound route itself: everything the bindings so far accumulated is dropped when its '
+                  'application is embedded' % txt, route, c)
+    ba = app.func('SubApplication.bind_all')
+    afl = Flow(ba)
+    binds = [c for c in walk_body(ba.node) if isinstance(c, ast.Call) and isinstance(c.func, ast.Attribute) and c.func.attr == 'bind']
+    if not binds:
+        raise AnalysisError('SubApplication.bind_all: no .bind(...) call found')
+    for c in binds:
+        txt = afl.text(c.func.value, stmt_of(app, c))
+        ok = 'unbound_route' not in txt
+        rep.check('R11.e', fkey(ba, 're-binds the bound routes'), ok, 'the embedded application\'s bound routes themselves are re-bound' if ok else
+                  'bind_all re-binds %s, the original unbound route, instead of the embedded application\'s bound route: the embedded '
+                  'application\'s own prefixes / resources / middlewares are dropped' % txt, app, c)
+
+
 def run(rep):
     from .c10 import _safe
     repo = rep.repo
@@ -1126,5 +1160,9 @@ def run(rep):
     def rebinding_composes():
         bi = route.func('BoundRoute.__init__')
         check_rebinding_composes(rep, repo, route, bi)
+
+    def rebinding_sites():
+        check_rebinding_sites(rep, repo, app, route)
     rep_guard(rebinding_composes)
-    rep_guard(rep.floor, 'R11.e', 6)
+    rep_guard(rebinding_sites)
+    rep_guard(rep.floor, 'R11.e', 8)
